@@ -11,6 +11,7 @@ from qvc.values import Builtin, Obj, SymArr, Cx, fresh
 from qvc import values as V
 
 AB = "quantarhei/builders/aggregate_base.py::"
+OS = "quantarhei/builders/opensystem.py::"
 
 META = dict(
     category="proof",
@@ -20,11 +21,17 @@ META = dict(
           "exp(-(E_a-E_b)/kT) (cross-multiplied form), and the Boltzmann factors are exponentials of non-positive arguments "
           "one of which is exactly zero, so their sum is at least one and the normalisation cannot become 0/0 however low "
           "the temperature; for T = 0 all population is on the start index. Diagonal with non-negative entries implies "
-          "Hermitian and positive semidefinite."),
+          "Hermitian and positive semidefinite. The molecular version OpenSystem.get_thermal_ReducedDensityMatrix is "
+          "proved in the same clause form over the Hamiltonian as presented inside its eigenbasis context (diagonal, "
+          "populations x partition sum = Boltzmann factor, partition sum = sum of the factors and > 0, real and "
+          "non-negative; T = 0 puts everything on the lowest eigenstate); its partition sum is >= 1 - no 0/0 - under the "
+          "stated precondition that the lowest eigenenergy is zero and the others non-negative (that function does not "
+          "shift the energies itself)."),
     note=("real arithmetic for floats (the numerical-safety clause is what carries the low-temperature claim); exp is "
           "uninterpreted with exp(0) = 1, positivity, exp(x) <= 1 for x <= 0 and exp(x+y) = exp(x) exp(y); "
-          "get_DensityMatrix (choice of basis, strong/weak coupling dispatch, impulsive excitation), Molecule and OpenSystem "
-          "variants and the inside/outside-basis-context claim are not under contract."),
+          "get_DensityMatrix (weak-coupling dispatch, impulsive excitation) and the inside/outside-basis-context claim are "
+          "not under contract; in the molecular version the eigenbasis_of context is a stand-in that presents the "
+          "Hamiltonian in its eigenbasis (entering, leaving and transforming back are C04)."),
     technique="VCs from the real AST with a sidecar loop invariant, z3; sum lemmas in Lean 4",
 )
 
@@ -88,8 +95,14 @@ def contracts(reg):
     # aggregate's own Hamiltonian.  Stated relationally: the returned matrix is what _thermal_population gives for
     # exactly those energies.
     def dm_hook(ex, cinfo, args, kwargs, line):
-        if cinfo.name == "DensityMatrix":
-            return (Obj("DensityMatrix(stub)", {"data": kwargs.get("data", args[0] if args else None)}),)
+        if cinfo.name in ("DensityMatrix", "ReducedDensityMatrix"):
+            return (Obj(cinfo.name + "(stub)", {"data": kwargs.get("data", args[0] if args else None)}),)
+        if cinfo.name == "eigenbasis_of":
+            # stand-in context: inside it the operator's `data` is its eigen-representation (the stub Hamiltonian of
+            # the set-up carries exactly that); entering / leaving and transforming back are the subject of C04
+            ex.used_models.add("assume:eigenbasis_of context presents the Hamiltonian in its eigenbasis (C04)")
+            return (Obj("eigenbasis_of(stand-in)", {"__enter__": Builtin("ctx.__enter__", lambda ex_, a, k, l: None),
+                                                    "__exit__": Builtin("ctx.__exit__", lambda ex_, a, k, l: None)}),)
         return None
     reg.models.hooks_instantiate.append(dm_hook)
 
@@ -138,6 +151,48 @@ def contracts(reg):
                                   ("excited-band-only-at-the-requested-temperature", "passed_start == start and passed_temp == temp"),
                                   ("result-is-that-equilibrium", "result.data is self.rho0")]))
 
+    # ---- molecular version (OpenSystem.get_thermal_ReducedDensityMatrix) ------------------------------------------------------------------
+    def setup_mol(S, zero_T, ground_zero=False):
+        dim = S.int("dim")
+        heig = S.array("Heig", (dim, dim), "real")           # the Hamiltonian as seen inside eigenbasis_of(H)
+        H = S.obj("Hamiltonian(stub)", label="H", _data=S.array("Hsite", (dim, dim), "real"), data=heig, dim=dim)
+        temp = 0.0 if zero_T else S.real("temp")
+        me = S.obj(OS + "OpenSystem", label="self",
+                   get_Hamiltonian=Builtin("self.get_Hamiltonian", lambda ex, a, k, l: H),
+                   get_temperature=Builtin("self.get_temperature", lambda ex, a, k, l: temp))
+        if ground_zero:
+            S.ex.assume(z3.And(heig.get([0, 0]) == 0))
+            i = z3.Int("i!gz")
+            S.ex.assume(z3.ForAll([i], z3.Implies(z3.And(i >= 0, i < dim), V.z3real(heig.get([i, i])) >= 0)))
+        return dict(self=me, dim=dim, Heig=heig, temp=temp)
+    BF = "exp(-Heig[{i},{i}]/(kB_intK*temp))"
+    mol_ens = [("diagonal", "forall((a, b), (range(0, dim), range(0, dim)), implies(a != b, result.data[a,b] == 0))"),
+               ("normalisation-is-the-sum-of-the-boltzmann-factors-and-positive",
+                "local_dsum == Sum(i, range(0, dim), %s) and numpy.real(local_dsum) > 0" % BF.format(i="i"),
+                dict(use=[("sum_ge_one_term", {"N": "dim", "c": BF.format(i="0"), "F": "lambda i: " + BF.format(i="i")})])),
+               ("populations-are-normalised-boltzmann-factors",
+                "forall(i, range(0, dim), result.data[i,i]*local_dsum == %s)" % BF.format(i="i"),
+                dict(use=[("sum_ge_one_term", {"N": "dim", "c": BF.format(i="0"), "F": "lambda i: " + BF.format(i="i")})])),
+               ("populations-real-and-non-negative",
+                "forall(a, range(0, dim), numpy.imag(result.data[a,a]) == 0 and numpy.real(result.data[a,a]) >= 0)",
+                dict(use=[("sum_ge_one_term", {"N": "dim", "c": BF.format(i="0"), "F": "lambda i: " + BF.format(i="i")})]))]
+    mol_loops = {0: dict(inv=["dsum == Sum(j, range(0, _i), %s)" % BF.format(i="j"),
+                              "forall(a, range(0, _i), dat[a,a] == %s)" % BF.format(i="a"),
+                              "forall((a, b), (range(0, dim), range(0, dim)), implies(a != b or a >= _i, dat[a,b] == 0))"],
+                         modifies=["dat", "dsum"])}
+    reg.add(Contract(OS + "OpenSystem.get_thermal_ReducedDensityMatrix#positive-temperature",
+                     setup=lambda S: setup_mol(S, False), requires=["dim >= 1", "temp >= 1.0e-10"],
+                     ensures=mol_ens, loops=mol_loops, expose_locals=["dsum"]))
+    reg.add(Contract(OS + "OpenSystem.get_thermal_ReducedDensityMatrix#lowest-energy-zero",
+                     setup=lambda S: setup_mol(S, False, True), requires=["dim >= 1", "temp >= 1.0e-10"],
+                     ensures=[("boltzmann-factors-cannot-all-underflow", "numpy.real(local_dsum) >= 1",
+                               dict(use=[("sum_ge_one_term", {"N": "dim", "c": "1", "F": "lambda i: " + BF.format(i="i")})]))],
+                     loops=mol_loops, expose_locals=["dsum"]))
+    reg.add(Contract(OS + "OpenSystem.get_thermal_ReducedDensityMatrix#zero-temperature",
+                     setup=lambda S: setup_mol(S, True), requires=["dim >= 1"],
+                     ensures=[("all-population-on-the-lowest-eigenstate",
+                               "forall((a, b), (range(0, dim), range(0, dim)), result.data[a,b] == ite(a == 0 and b == 0, 1, 0))")]))
+
 
 def plan(ctx):
     p = Plan("C14")
@@ -146,7 +201,10 @@ def plan(ctx):
                    AB + "AggregateBase._thermal_population#positive-temperature-with-subtracted-energies",
                    AB + "AggregateBase._thermal_population#zero-temperature",
                    AB + "AggregateBase.get_DensityMatrix#strong-coupling-supplied-hamiltonian",
-                   AB + "AggregateBase.get_DensityMatrix#strong-coupling-own-hamiltonian"]
+                   AB + "AggregateBase.get_DensityMatrix#strong-coupling-own-hamiltonian",
+                   OS + "OpenSystem.get_thermal_ReducedDensityMatrix#positive-temperature",
+                   OS + "OpenSystem.get_thermal_ReducedDensityMatrix#lowest-energy-zero",
+                   OS + "OpenSystem.get_thermal_ReducedDensityMatrix#zero-temperature"]
     x, y = z3.Reals("x y")
     ef = lambda t: V.ufun("exp", t)      # noqa: E731
     p.extra_axioms = [V.ufun("exp", 0) == 1, z3.ForAll([x], ef(x) > 0, patterns=[ef(x)]),
@@ -158,5 +216,6 @@ def plan(ctx):
                  "is exp(0) = 1 and all others are exp of a non-positive number"]
     p.not_decided = ["get_DensityMatrix: dispatch on condition type and coupling limit, the basis in which the state is defined, "
                      "same physical state inside / outside a basis context", "impulsive excitation (Hermitian, PSD)",
-                     "Molecule / OpenSystem thermal states, systems with vibrational modes (index bookkeeping of bands)"]
+                     "that a Molecule's Hamiltonian has its lowest eigenenergy at zero (precondition of the no-underflow clause of "
+                     "the molecular version); systems with vibrational modes in aggregates (index bookkeeping of bands)"]
     return p
